@@ -50,17 +50,17 @@ def bankKnown : List Str := ["p:restricted_denoms"].map lit
     syntax, auth/bank structs); both sides print `unmodelled` once the write
     reaches that module's WillSetParam. -/
 def unmodelled (module rawKey : Str) : Bool :=
-  if module = lit "vm" then vmField rawKey == some .ext
-  else if module = lit "auth" then authKnown.contains rawKey
-  else if module = lit "bank" then bankKnown.contains rawKey
+  if module = L!"vm" then vmField rawKey == some .ext
+  else if module = L!"auth" then authKnown.contains rawKey
+  else if module = L!"bank" then bankKnown.contains rawKey
   else false
 
 def registry : Registry := fun m =>
-  if m = lit "vm" then some (vmWillSet (fun _ _ => true))
-  else if m = lit "auth" then some (fun _ _ => .error .unknownParam)   -- known keys are short-circuited as unmodelled
-  else if m = lit "bank" then some (fun _ _ => .error .unknownParam)
-  else if m = lit "node" then some (fun _ _ => .ok ())
-  else if m = lit "fake" then some (fun _ v => if v = .str (lit "bad") then .error .invalid else .ok ())
+  if m = L!"vm" then some (vmWillSet (fun _ _ => true))
+  else if m = L!"auth" then some (fun _ _ => .error .unknownParam)   -- known keys are short-circuited as unmodelled
+  else if m = L!"bank" then some (fun _ _ => .error .unknownParam)
+  else if m = L!"node" then some (fun _ _ => .ok ())
+  else if m = L!"fake" then some (fun _ v => if v = .str (L!"bad") then .error .invalid else .ok ())
   else none
 
 /-! ### deployability of the harness's generated realm package (protocol helper, not part of the model) -/
@@ -75,15 +75,15 @@ def pkgNameOk : Str → Bool
   | _ => false
 
 def deployable (p : Str) : Bool :=
-  isRealmPath p && (lit "gno.land/").isPrefixOf p &&
-  !endsWith p (lit "_test") && !endsWith p (lit "_filetest") &&
+  isRealmPath p && (L!"gno.land/").isPrefixOf p &&
+  !endsWith p (L!"_test") && !endsWith p (L!"_filetest") &&
   match (splitBy '/' p).getLast? with
   | some last => pkgNameOk last && !isVersionSuffix last
   | none => false
 
-def runRealm : Str := lit "gno.land/e/g1qmz5w76sluld9ald6yjxyhtarpdlg3flfu75e2/run"
+def runRealm : Str := L!"gno.land/e/g1qmz5w76sluld9ald6yjxyhtarpdlg3flfu75e2/run"
 
-def proxyPath (target : Str) : Str := lit "gno.land/r/proxy/x" ++ hexStr target
+def proxyPath (target : Str) : Str := L!"gno.land/r/proxy/x" ++ hexStr target
 
 /-! ### state and ops -/
 
